@@ -1,4 +1,53 @@
-(** C20 — placeholder until Pop/SmProofs.v lands (replaced below in the same session) *)
-Theorem C20_placeholder : True.
-Proof. exact I. Qed.
-Print Assumptions C20_placeholder.
+(** C20 — a chain once reported fully valid can be activated again. Closed, instantiated machine.
+
+    FULL statements aimed at (kept visible):
+      full_validity_truthful : reachable s -> level b = CAN_BE_APPLIED -> applying root..b alone from the bootstrap state succeeds
+      reactivation           : ... -> b not invalidated -> setState s b = Ok (_, true) from any reachable s
+    PROVED for all states: the level logic of applyBlock — the fully-valid level is raised only on a fully valid parent
+    and only when the applied-block counter says nothing but root..parent is applied (full_level_guard); a block applied
+    next to another chain or on a MAYBE parent is never reported as fully valid by that application
+    (maybe_level_never_reported_full); the unapply discipline (applied, parent applied, no applied child);
+    and (Properties_C01) P = effects of the applied blocks at that moment.
+    GAP (hence _partial): the counting argument "counter = height - root height and applied set parent-closed => applied
+    set = root..parent", which turns the guard into truthfulness and re-activation; covered by the re-activation oracle
+    on the implementation and by the exact comparison of validity levels with the model. *)
+From Coq Require Import List ZArith NArith Bool.
+From VB Require Import Pop.SmDefs Pop.SmProofs.
+Local Open Scope Z_scope.
+
+Theorem C20_full_validity_truthful_partial :
+  forall s i s' b pb b',
+    c_applyBlock s i = Ok (s', true) ->
+    find ccmd (blocks _ _ s) i = Some b -> find ccmd (blocks _ _ s) (b_par _ b) = Some pb ->
+    find ccmd (blocks _ _ s') i = Some b' ->
+    b_lvl _ b <> L_FULL -> b_lvl _ b' = L_FULL ->
+    valid_upto _ pb L_FULL = true /\ b_h _ b = root_h _ _ s + Z.of_N (napp _ _ s).
+Proof. exact full_level_guard. Qed.
+Print Assumptions C20_full_validity_truthful_partial.
+
+Theorem C20_maybe_level_never_reported_full :
+  forall s i s' b pb b',
+    c_applyBlock s i = Ok (s', true) ->
+    find ccmd (blocks _ _ s) i = Some b -> find ccmd (blocks _ _ s) (b_par _ b) = Some pb ->
+    find ccmd (blocks _ _ s') i = Some b' ->
+    b_lvl _ b <> L_FULL ->
+    (valid_upto _ pb L_FULL = false \/ b_h _ b <> root_h _ _ s + Z.of_N (napp _ _ s)) ->
+    b_lvl _ b' <> L_FULL.
+Proof. exact maybe_level_never_reported_full. Qed.
+Print Assumptions C20_maybe_level_never_reported_full.
+
+Theorem C20_unapply_order :
+  forall s i s', c_unapplyBlock s i = Ok s' ->
+    exists b pb, find ccmd (blocks _ _ s) i = Some b /\ b_act _ b = true /\
+                 find ccmd (blocks _ _ s) (b_par _ b) = Some pb /\ b_act _ pb = true /\
+                 child_active _ (blocks _ _ s) i = false /\ i <> root _ _ s.
+Proof. exact unapply_order. Qed.
+Print Assumptions C20_unapply_order.
+
+Theorem C20_reactivation_partial :
+  forall base s to s',
+    canon base s -> c_setState s to = Ok (s', true) ->
+    tip _ _ s' = to /\ napp _ _ s' = chain_count _ _ s' to /\
+    exists b, find ccmd (blocks _ _ s') to = Some b /\ valid_upto _ b L_FULL = true.
+Proof. exact setState_true_outcome. Qed.
+Print Assumptions C20_reactivation_partial.
